@@ -64,6 +64,9 @@ theorem iterUntil_reg {body cl : HSt → Option HSt} {ef : Val} {ev : Int} {h : 
 theorem tmpIn_of_take {m m1 : Mem} {i : Nat} (h : takeReg m = .ok (m1, i)) : TmpIn m.active (R i) :=
   ⟨rfl, (takeReg_spec h).1⟩
 
+theorem tmpIn_of_takeAt {m m1 : Mem} {rg : Option Nat} {i : Nat} (h : takeAt m rg = .ok (m1, i)) :
+    TmpIn m.active (R i) := ⟨rfl, (takeAt_spec h).1⟩
+
 theorem prot_set_self {a mu : List Bool} {i : Nat} (h : a.getD i true = false) : Prot (a.set i true) mu (R i) :=
   Or.inl ⟨rfl, getD_set_self (getD_true_false_lt h) _ _⟩
 
@@ -75,7 +78,7 @@ theorem getElem?_append_length {α : Type} (l : List α) (x : α) (t : List α) 
 /-- shared part of `loop`, `loopBody`, `foreach`: register taken, body, loop commands, register released -/
 theorem loopShape_sim {m m1 m2 m4 : Mem} {i : Nat} {b : Bool} {body : Host} {bc : List PCmd}
     {start stop stp : Int} {H : List (Reg × Bool)} {L MH : List Nat} {f : Nat}
-    (h1 : takeReg m = .ok (m1, i)) (h2 : emit (bindHandle m1 (R i) b) body = .ok (m2, bc))
+    {rg : Option Nat} (h1 : takeAt m rg = .ok (m1, i)) (h2 : emit (bindHandle m1 (R i) b) body = .ok (m2, bc))
     (h4 : release (buildLoop m2 start stop stp (R i) bc).1 i = .ok m4)
     (hem : emits body = true) (hext : Ext m4.handles H)
     (ih : ∀ (p : List PCmd) (n : Nat) (hs hs1 : HSt) (ts : St), Placed p n bc →
@@ -92,8 +95,8 @@ theorem loopShape_sim {m m1 m2 m4 : Mem} {i : Nat} {b : Bool} {body : Host} {bc 
   have st2 := emit_stat _ _ _ _ h2
   have hbc : bc ≠ [] := by
     intro e; have := st2.empty.mp e; rw [hem] at this; cases this
-  have s1 := takeReg_spec h1
-  have htmp := tmpIn_of_take h1
+  have s1 := takeAt_spec h1
+  have htmp := tmpIn_of_takeAt h1
   rw [buildLoop_shape _ _ _ _ _ _ hbc] at hpl ⊢
   have Lp := loopAt_of_placed hpl
   -- the handle of the loop register
@@ -345,7 +348,7 @@ theorem emit_sim : ∀ (op : Host) (fuel : Nat) (m m' : Mem) (cs : List PCmd), B
                 · cases hh
                 · rename_i vb hvb
                   exact finish va vb hva (fun _ => hvb) hh
-  | loop start stop stp body ih =>
+  | loop rg start stop stp body ih =>
     intro fuel m m' cs hb h H L MH p n hs hs' ts hext hextL hpl hrel hh
     simp only [emit] at h
     split at h
@@ -358,8 +361,8 @@ theorem emit_sim : ∀ (op : Host) (fuel : Nat) (m m' : Mem) (cs : List PCmd), B
         · cases h
         · rename_i m4 h4
           cases h
-          have s1 := takeReg_spec h1
-          have sm1 := takeReg_same h1
+          have s1 := takeAt_spec h1
+          have sm1 := takeAt_same h1
           have st2 := emit_stat _ _ _ _ h2
           cases fuel with
           | zero => simp [hsem] at hh
@@ -393,7 +396,7 @@ theorem emit_sim : ∀ (op : Host) (fuel : Nat) (m m' : Mem) (cs : List PCmd), B
                 exact ⟨t1, hr1, by
                   have : Rel H L MH m1.active m1.measUsed a1 t1 := hrel1
                   rwa [s1.2.1, sm1.meas] at this⟩
-  | loopBody start stop stp body ih =>
+  | loopBody rg start stop stp body ih =>
     intro fuel m m' cs hb h H L MH p n hs hs' ts hext hextL hpl hrel hh
     simp only [emit] at h
     split at h
@@ -406,8 +409,8 @@ theorem emit_sim : ∀ (op : Host) (fuel : Nat) (m m' : Mem) (cs : List PCmd), B
         · cases h
         · rename_i m4 h4
           cases h
-          have s1 := takeReg_spec h1
-          have sm1 := takeReg_same h1
+          have s1 := takeAt_spec h1
+          have sm1 := takeAt_same h1
           have st2 := emit_stat _ _ _ _ h2
           cases fuel with
           | zero => simp [hsem] at hh
@@ -501,7 +504,7 @@ theorem emit_sim : ∀ (op : Host) (fuel : Nat) (m m' : Mem) (cs : List PCmd), B
                     rw [hit] at hh; simp only [clearOpt] at hh; cases hh
                     have hextB : Ext m2.handles H := by
                       rw [(release_same h4).handles, (buildLoop_sameL _ _ _ _ _ _).handles] at hext; exact hext
-                    refine loopShape_sim h1 h2 h4 hem' hext ?_ hpl hrel hit
+                    refine loopShape_sim (rg := none) h1 h2 h4 hem' hext ?_ hpl hrel hit
                     intro p' n' a a1 b' hpl' hr' hb'
                     have := ih f (bindHandle m1 (R i) false) m2 bc hb h2 H L MH p' n' a a1 b' hextB hextLB hpl'
                       (by show Rel H L MH m1.active m1.measUsed a b'; rw [s1.2.1, sm1.meas]; exact hr')
